@@ -353,15 +353,18 @@ class Check:
         bad_unw = [p for p in unw if p['status'] != 'SUCCESS']
         if bad_unw:
             res['verdict'] = 'INCONCLUSIVE'; res['why'] = 'unwinding assertion failed: %s (bound %d too small)' % (bad_unw[0]['id'], h.unwind); return res
-        if not wit:
-            res['verdict'] = 'INCONCLUSIVE'; res['why'] = 'harness has no reachability witness'; return res
-        vac = [p for p in wit if p['status'] != 'FAILURE']
-        if vac:
-            res['verdict'] = 'INCONCLUSIVE'; res['why'] = 'vacuous: witness %s not reachable' % vac[0]['desc']; return res
         nobody = [p for p in rest if p['status'] != 'SUCCESS' and p['desc'].startswith('no body for callee')]
         if nobody:
             res['verdict'] = 'INCONCLUSIVE'; res['why'] = 'harness reaches code that is not encoded: ' + ', '.join(sorted(set(p['desc'] for p in nobody)))[:600]; return res
         fails = [p for p in rest if p['status'] != 'SUCCESS']
+        if not fails:
+            # vacuity is only decided when nothing failed: a failing obligation that ends the path (trap, ASMJIT_ASSERT)
+            # legitimately makes later witnesses unreachable
+            if not wit:
+                res['verdict'] = 'INCONCLUSIVE'; res['why'] = 'harness has no reachability witness'; return res
+            vac = [p for p in wit if p['status'] != 'FAILURE']
+            if vac:
+                res['verdict'] = 'INCONCLUSIVE'; res['why'] = 'vacuous: witness %s not reachable' % vac[0]['desc']; return res
         res['failed'] = [dict(p) for p in fails]
         res['verdict'] = 'FAIL' if fails else 'PASS'
         return res
